@@ -7,8 +7,15 @@ Three parts, all on the REAL code imported from common.REPO:
   2. the same contract along seeded *insertion sequences* (the result of each call is applied and
      becomes the next call's existing list; requests hammer one place until floats run out, so the
      list-labelling relabelling paths are exercised with accumulated adjustments);
-  3. engine-level invariant C20.position_columns_distinct after every bundle of seeded random
-     histories that write manualSort / PositionNumber cells (user tables and metadata tables).
+  3. engine-level invariant C20.position_columns_distinct and 2-state clause
+     C20.existing_order_kept after every bundle of seeded random histories that write manualSort /
+     PositionNumber cells (user tables and metadata tables), rename tables / position columns and
+     crowd one place;
+  4. the full 2-state contract (distinct + finite, existing order kept, new / moved rows at the
+     requested place, request order kept) after every action of directed histories on position
+     columns whose column object was rebuilt first (table renamed, renamed twice, rename undone,
+     position column renamed / retyped and back, other column renamed / retyped / added / removed,
+     document reloaded): mid-table inserts, ~60 inserts at one place (forces relabelling), moves.
 
 The postcondition is written from the property statement (a specification over the returned
 adjustments), not from the algorithm."""
@@ -453,16 +460,14 @@ POS_MID = ("none", "two-mid", "bulk-mid", "mid+remove")
 
 
 def _poshist_cases(tier, seed):
-  n = 0
   for prefix in POS_PREFIXES:
     for col in ("manualSort", "pos"):
       if prefix == "rename_position_column" and col != "pos": continue
       if prefix == "retype_position_column_and_back" and col != "pos": continue
-      for mid in POS_MID:
-        for spot in ("middle", "first", "inserted"):
-          n += 1
-          if tier == "quick" and spot != "middle" and (n + seed) % 2:
-            continue                      # quick: the 'middle' place always, the others every 2nd
+      for mi, mid in enumerate(POS_MID):
+        for si, spot in enumerate(("middle", "first", "inserted")):
+          if tier == "quick" and si and (si + mi + seed) % 2:
+            continue              # quick: the middle place always, one of the two others per pattern
           yield dict(prefix=prefix, col=col, mid=mid, spot=spot,
                      crowd=58 if tier == "quick" else 110)
 
@@ -670,15 +675,67 @@ REQ_POOL = [0.0, -1.0, 1.0, 2.0, 0.5, 1e16, 1e308, 5e-324, INF, -INF, None, 3]
 class PositionsMonitor(_monitor_base()):
   """invariant after every bundle (successful or failed):
        C20.position_columns_distinct: in every table, every ManualSortPos / PositionNumber column
-       holds pairwise-distinct values (observed through fetch_table)."""
+       holds pairwise-distinct values (observed through fetch_table);
+     2-state clause after every bundle:
+       C20.existing_order_kept: in every position column (followed through table / column renames
+       by its metadata refs), the rows that were there before the bundle and whose position the
+       bundle did not write explicitly keep their relative order;
+     closing probe of every history (finish): %d single inserts at one place of one table, the
+       full 2-state contract of part 4 after each (C20.total / all_finite_distinct /
+       existing_order_kept / new_at_requested_place)."""
+  __doc__ = __doc__ % 56
   seeds = ("basic", "refs")
   length = 5
   weights = {"add": 14, "bulk_add": 10, "remove": 8, "bulk_remove": 4, "add_col": 6, "remove_col": 4,
              "add_table": 3, "replace_data": 2, "view": 3, "summary": 2, "modify_formula": 1,
-             "add_formula_col": 2, "modify_type": 2, "rename_col": 1, "multi": 4}
+             "add_formula_col": 2, "modify_type": 2, "rename_col": 2, "rename_table": 3, "multi": 4}
 
   def start(self, e, seed_name):
-    return {"crowd": None, "tainted": []}
+    return {"crowd": None, "tainted": [], "renames": 0}
+
+  def _keyed_positions(self, e):
+    """{key: (table_id, col_id, {row: value})}; key = (table ref, column ref) from the metadata for
+    user tables (stable under renames), (table id, col id) for metadata tables."""
+    from vlib.rtc import eng
+    trefs = {t["tableId"]: t["id"] for t in eng.meta_records(e, "_grist_Tables")}
+    crefs = {(c["parentId"], c["colId"]): c["id"] for c in eng.meta_records(e, "_grist_Tables_column")}
+    out = {}
+    for (t, c) in position_columns(e):
+      if t not in e.tables: continue
+      td = e.fetch_table(t)
+      if c not in td.columns: continue
+      key = (t, c) if t.startswith("_grist_") else (trefs.get(t), crefs.get((trefs.get(t), c)))
+      if None in key: continue
+      out[key] = (t, c, dict(zip(td.row_ids, td.columns[c])))
+    return out
+
+  @staticmethod
+  def _explicit_writes(bundle):
+    """-> ({col_id: set(row ids)} written by [Bulk]UpdateRecord, set(col ids written by an action whose
+    rows cannot be told from its repr), set(table ids whose rows are replaced wholesale))."""
+    rows, opaque, replaced = {}, set(), set()
+    for a in bundle:
+      kind = a[0] if a else None
+      dicts = [x for x in a[1:] if isinstance(x, dict)]
+      if kind in ("UpdateRecord", "BulkUpdateRecord") and len(a) >= 4 and isinstance(a[3], dict):
+        rs = a[2] if isinstance(a[2], (list, tuple)) else [a[2]]
+        for c in a[3]:
+          rows.setdefault(c, set()).update(rs)
+      elif kind in ("AddRecord", "BulkAddRecord", "RemoveRecord", "BulkRemoveRecord", "RenameTable",
+                    "RenameColumn", "AddColumn", "RemoveColumn", "AddTable", "RemoveTable",
+                    "CreateViewSection", "RemoveViewSection", "RemoveView", "ModifyColumn"):
+        if kind == "ModifyColumn": opaque.add(a[2])
+        if kind.endswith("Record") and len(a) >= 3:
+          # a removed row id can be handed out again by a later add of the same bundle: rows named
+          # by removes / adds are not 'rows that were there before'
+          rs = a[2] if isinstance(a[2], (list, tuple)) else [a[2]]
+          rows.setdefault("*", set()).update(r for r in rs if r is not None)
+      else:
+        for d in dicts: opaque.update(d)
+        if len(a) > 1 and isinstance(a[1], str): replaced.add(a[1])
+        if kind in ("ApplyUndoActions", "ApplyDocActions") or not isinstance(kind, str):
+          opaque.add("*")
+    return rows, opaque, replaced
 
   def _requests(self, rng, vals, n):
     out = []
@@ -701,6 +758,18 @@ class PositionsMonitor(_monitor_base()):
     if r < 0.40:
       return g.bundle(e)
     tabs = [t for t in eng.user_tables(e) if "manualSort" in e.fetch_table(t).columns]
+    if tabs and rng.random() < 0.10:
+      # the position columns are rebuilt (table renamed / user position column renamed); the
+      # crowded place stays the target of the later crowding bundles
+      t = st["crowd"][0] if st["crowd"] and st["crowd"][0] in tabs and rng.random() < 0.7 else rng.choice(tabs)
+      pc = [c for (tt, c) in position_columns(e) if tt == t and c != "manualSort"]
+      st["renames"] += 1
+      if pc and rng.random() < 0.4:
+        return [["RenameColumn", t, rng.choice(pc), "pos%d" % st["renames"]]]
+      new_t = "Ren%d" % st["renames"]
+      if st["crowd"] and st["crowd"][0] == t:
+        st["crowd"] = (new_t, st["crowd"][1])
+      return [["RenameTable", t, new_t]]
     if r < 0.48:                                        # metadata position columns
       cand = [(t, c) for (t, c) in position_columns(e) if t.startswith("_grist_")]
       cand = [(t, c) for (t, c) in cand if len(e.fetch_table(t).row_ids) > 0]
@@ -739,7 +808,8 @@ class PositionsMonitor(_monitor_base()):
       # requesting an existing position inserts just before that row: the gap halves every time
       p = ms[-1] if how == "last" else ms[0] if how == "first" else ms[len(ms) // 2]
       if how == "first" and len(ms) > 1: p = ms[1]
-      return [["AddRecord", t, None, {"manualSort": p}] for _ in range(rng.randint(20, 30))]
+      n = rng.choice([rng.randint(20, 30), rng.randint(20, 30), rng.randint(52, 60)])
+      return [["AddRecord", t, None, {"manualSort": p}] for _ in range(n)]
     if r < 0.74:
       return [["AddRecord", t, None, {c: self._requests(rng, vals, 1)[0]}]]
     if r < 0.84:
@@ -756,6 +826,10 @@ class PositionsMonitor(_monitor_base()):
     # a position column that is created on / converted over a table that already has rows never
     # went through prepare_inserts: remembered so that the failure gets its own class
     st["born"] = []
+    try:
+      st["pos_before"] = self._keyed_positions(e)
+    except Exception:
+      st["pos_before"] = {}
     for a in bundle:
       try:
         if a[0] == "AddColumn" and (a[3] or {}).get("type") in ("PositionNumber", "ManualSortPos"):
@@ -781,9 +855,98 @@ class PositionsMonitor(_monitor_base()):
                      "born_on_nonempty_table": bool(born),
                      "raised": repr(exc) if exc else None}))
         break
+    if not out:
+      out += self._order_failures(st, e, bundle, exc)
     return out
 
+  def _order_failures(self, st, e, bundle, exc):
+    def num(v):
+      return isinstance(v, (int, float)) and not isinstance(v, bool) and v == v
+    rows_w, opaque, replaced = self._explicit_writes(bundle) if exc is None else ({}, set(), set())
+    if "*" in opaque:
+      return []
+    now = self._keyed_positions(e)
+    for key, (t0, c0, before) in sorted(st.get("pos_before", {}).items(), key=repr):
+      if key not in now: continue
+      t1, c1, after = now[key]
+      if {c0, c1} & opaque or {t0, t1} & replaced: continue
+      moved = rows_w.get(c0, set()) | rows_w.get(c1, set()) | rows_w.get("*", set())
+      kept = [r for r in before if r in after and r not in moved and num(before[r]) and num(after[r])]
+      # strictly ordered before => strictly ordered after (rows sharing a position, e.g. in a column
+      # born on a non-empty table, are not constrained)
+      kept.sort(key=lambda r: (before[r], after[r]))
+      hi, hi_row, group_pos, group_max, group_max_row = None, None, None, None, None
+      for r in kept:
+        if group_pos is None or before[r] != group_pos:
+          if group_max is not None and (hi is None or group_max > hi):
+            hi, hi_row = group_max, group_max_row
+          group_pos, group_max, group_max_row = before[r], None, None
+        if hi is not None and not hi < after[r]:
+          return [("C20.existing_order_kept",
+                   {"table": t1, "column": c1, "rows": [hi_row, r],
+                    "before": [before[hi_row], before[r]], "after": [after[hi_row], after[r]],
+                    "raised": repr(exc) if exc else None,
+                    "actions": sorted(set(str(a[0]) for a in bundle))})]
+        if group_max is None or after[r] > group_max:
+          group_max, group_max_row = after[r], r
+    return []
+
+  PROBE_INSERTS = 56
+
+  def finish(self, st, e):
+    """Closing probe of every history: whatever the history did to the document (renames, type
+    changes, removed columns, failed bundles, ...), its position columns must still work.  On one
+    user table (the crowded one if any) rows are inserted ONE action at a time in front of the row
+    in the middle of the manual order until relabelling is forced; after every insert the full
+    2-state contract (_step_failures) is evaluated on every position column of the table that held
+    finite pairwise-distinct values when the probe started."""
+    from vlib.rtc import eng
+    tabs = []
+    for t in eng.user_tables(e):
+      try:
+        td = e.fetch_table(t)
+      except Exception:
+        continue
+      if "manualSort" in td.columns and len(td.row_ids) >= 2 and \
+          any(tt == t and c == "manualSort" for (tt, c) in position_columns(e)):
+        tabs.append(t)
+    if not tabs:
+      return []
+    t = st["crowd"][0] if st.get("crowd") and st["crowd"][0] in tabs else tabs[0]
+    def clean(vals):
+      vs = list(vals.values())
+      return (all(isinstance(v, float) and math.isfinite(v) for v in vs) and len(set(vs)) == len(vs))
+    start = _table_positions(e, t)
+    cols = [c for c in sorted(start) if clean(start[c])]
+    if "manualSort" not in cols:
+      return []
+    order = sorted(start["manualSort"], key=lambda r: start["manualSort"][r])
+    target = order[len(order) // 2]
+    for i in range(self.PROBE_INSERTS):
+      before = _table_positions(e, t)
+      k = before["manualSort"][target]
+      action = ["AddRecord", t, None, {"manualSort": k}]
+      try:
+        group = eng.apply(e, [action])
+      except Exception as ex:
+        return [("C20.total", {"table": t, "probe_step": i, "action": action, "raised": repr(ex)[:300],
+                               "probe": True})]
+      after = _table_positions(e, t)
+      new_row = group.retValues[0]
+      for c in cols:
+        if c not in after or c not in before: continue
+        fs = _step_failures(before[c], after[c], {new_row: k if c == "manualSort" else INF})
+        if fs:
+          return [(fs[0][0], {"table": t, "column": c, "probe_step": i, "action": action,
+                              "why": fs[0][1], "probe": True})]
+    return []
+
   def classify(self, clause, detail, bundle, history):
+    if detail.get("probe"):
+      return "probe-after-history:%s" % clause.split(".", 1)[1]
+    if clause == "C20.existing_order_kept":
+      return "%s:existing-rows-reordered" % ("meta" if str(detail.get("table", "")).startswith("_grist_")
+                                             else "user")
     if detail.get("born_on_nonempty_table"):
       return "position-column-created-or-converted-on-non-empty-table"
     return "%s:%s" % ("meta" if str(detail.get("table", "")).startswith("_grist_") else "user",
@@ -824,7 +987,9 @@ def main():
     "with existing = every strictly increasing sub-list (size per bound) of the %d-value pool and "
     "batch = every tuple over pool+{inf,-inf}; part 2: one evaluation = one seeded insertion "
     "sequence (every step checked, results applied and fed back); part 3: one evaluation = one user "
-    "bundle on the real engine followed by the distinctness invariant on every position column. "
+    "bundle on the real engine followed by the distinctness invariant and the 2-state order clause on "
+    "every position column; part 4 (moves, rebuilt position columns): one evaluation = one directed "
+    "history on the real engine, clauses after every action. "
     "Non-trivial = (1) non-empty batch that forced at least one existing row to be relabelled, or "
     "raised; (2) sequence with at least one relabelling step; (3) bundle whose stored actions "
     "write a position column, or that raised; distinct by repr of the case." % len(X))
@@ -837,7 +1002,17 @@ def main():
                      "existing<=3 x batch<=3, existing=4 x batch<=2 (complete) + 1.8M sampled: sub-lists <=6 of 64 adjacent "
                      "floats at 6 magnitudes + specials, batch<=3"),
     "sequences": "1200 x 70 steps" if tier == "quick" else "40000 x 120 steps",
-    "engine": "seed docs basic, refs; histories of 5 bundles; position-focused action mix "
+    "rebuilt_position_columns": "table T(a, b, pos:PositionNumber) with 5 rows; one of %d ways of rebuilding "
+                                "the column objects (%s) x column (manualSort, pos) x %d mid-table insert patterns "
+                                "x crowded place (middle row; first row / a row inserted after the rebuild: "
+                                "quick tier one of the two per pattern, thorough both); then %d inserts at the place (single and 2-row bulk), a move "
+                                "into the place, a move to the end, an append; every clause after every action on "
+                                "every position column of the table"
+                                % (len(POS_PREFIXES), ", ".join(POS_PREFIXES), len(POS_MID),
+                                   58 if tier == "quick" else 110),
+    "engine": "seed docs basic, refs; histories of 5 bundles; table renames / position-column renames that "
+              "keep the crowded place; crowding bundles of 20-30 or 52-60 inserts; every history closed by a probe "
+              "of 56 single inserts at one place (full 2-state contract after each); position-focused action mix "
               "(requests from existing positions, their float neighbours, 0, -1, 1e16, 1e308, "
               "5e-324, +-inf, None; crowding bundles of 20-30 inserts at one place; metadata "
               "parentPos/pagePos/tabPos updates) + 3 directed histories (position "
@@ -866,7 +1041,7 @@ def main():
                               "C20.positions_distinct_finite_after_move": _e_move_distinct},
     classify=lambda a, clause, detail: clause)
   fn.check(rep, moves, _move_cases, exhaustive=True, limit_quick_s=30, limit_thorough_s=200,
-           warm_engine=True)
+           warm_engine=True, procs=4)
 
   # the same 2-state contract along histories on position columns that were rebuilt first
   poshist = fn.FnContract(
@@ -874,12 +1049,13 @@ def main():
     call=_poshist_call, ensures={c: _poshist_clause(c) for c in POSHIST_CLAUSES},
     classify=_poshist_classify,
     nontrivial=lambda a, r, exc: r is not None and (r["relabels"] > 0 or bool(r["fails"])))
+  # (4 worker processes: engine-heavy cases scale badly beyond that in forked pool workers)
   fn.check(rep, poshist, _poshist_cases, exhaustive=True, limit_quick_s=40, limit_thorough_s=300,
-           warm_engine=True)
+           warm_engine=True, procs=4)
 
   from vlib.rtc import explore
   explore.explore(rep, "checks.C20", "PositionsMonitor", n_quick=48, n_thorough=6000,
-                  budget_quick_s=6, budget_thorough_s=240)
+                  budget_quick_s=6, budget_thorough_s=240, procs=6 if tier == "quick" else None)
   # directed histories: position columns that are created on / converted over a non-empty table,
   # then used (fixed inputs, examined on every run)
   directed = [("basic", [[["AddColumn", "A", "pos", {"type": "PositionNumber", "isFormula": False}]]]),
